@@ -691,6 +691,136 @@ def r12_generator_made_variables_live_with_the_call(ctx, rule="C03.R12"):
     ctx.require(rule, 5)
 
 
+def r13_static_dim_is_allocated_once(ctx, rule="C03.R13"):
+    """`STATIC state persists between calls`: a DIM inside a STATIC procedure allocates its variable the first time
+    only - the generator puts the allocation behind `IsVariableDefined .. jump over`.  Whether it does may depend on
+    two things: is the procedure STATIC (the generator function that reads `is_static`), and what the caller says
+    the statement is (DIM or REDIM - a constant argument at each call site).  The function that emits the guard is
+    walked once per call site with that site's constants: where the guard can be reached at all, every path that
+    reaches the allocation without it carries the answer `not STATIC` - no property of the declared variable
+    (array bounds, type) takes a path around the guard."""
+    prog = ctx.prog
+    gens = emit.generator_fns(prog)
+    owners = []
+    for g in gens:
+        evs = emit.events(prog, g)
+        gb = [b for b, e in evs.items() if e.kind == "push" and e.instr == "IsVariableDefined"]
+        if gb:
+            owners.append((g, evs, gb))
+    if len(owners) != 1:
+        raise CheckError("%s: expected one emitter of IsVariableDefined, found %d" % (rule, len(owners)))
+    g, evs, gb = owners[0]
+    body = g.body
+    pv = mir.Prov(body)
+    static_fns = set()
+    for h in prog.fns.values():
+        if h.crate != "rusty_basic" or "::instruction_generator::" not in h.id or h.body is None:
+            continue
+        for blk in h.body.blocks:
+            for st in blk["s"]:
+                if st["k"] == "assign" and st["r"].get("k") in ("use", "ref", "copyderef"):
+                    pl = mir.op_place(st["r"]["o"]) if "o" in st["r"] else st["r"].get("p")
+                    if pl and any(isinstance(e, dict) and e.get("n") == "is_static" for e in pl[1]):
+                        static_fns.add(h.id)
+    if not static_fns:
+        raise CheckError("%s: no generator function reads is_static" % rule)
+    allocs = {b for b, e in evs.items() if e.kind == "gen"}
+    if not allocs:
+        raise CheckError("%s: %s emits no allocation" % (rule, g.name))
+    callers = prog.callers()
+    n = 0
+    for cid in sorted(callers.get(g.id, ())):
+        c = prog.fns.get(cid)
+        if c is None or c.body is None:
+            continue
+        for cb, ct in c.body.calls():
+            if mir.callee_of(ct) != g.id:
+                continue
+            consts = {}
+            for i, a in enumerate(ct["args"]):
+                k = a.get("k") if isinstance(a, dict) else None
+                if isinstance(k, dict) and k.get("ty") == "bool" and "int" in k:
+                    consts[i] = bool(k["int"])
+            n += 1
+            reach_guard = [False]
+            bad = []
+
+            def val_of(op, env):
+                k = op.get("k") if isinstance(op, dict) else None
+                if isinstance(k, dict) and k.get("ty") == "bool" and "int" in k:
+                    return bool(k["int"])
+                pl = mir.op_place(op)
+                if pl is not None and not pl[1]:
+                    if pl[0] in env:
+                        return env[pl[0]]
+                    if 1 <= pl[0] <= g.argc and (pl[0] - 1) in consts and len(body.defs().get(pl[0], [])) == 0:
+                        return consts[pl[0] - 1]
+                return None
+
+            def walk(b, seen, static_no, trail, env=None):
+                env = dict(env or {})
+                if b in seen or body.is_cleanup(b):
+                    return
+                # values the path itself fixes (`let guarded = a && !b` leaves a constant in a local on each side)
+                for st in body.blocks[b]["s"]:
+                    if st["k"] != "assign" or st["p"][1]:
+                        continue
+                    r = st["r"]
+                    v = None
+                    if r.get("k") == "use":
+                        v = val_of(r["o"], env)
+                    elif r.get("k") == "un" and r.get("op") == "Not":
+                        v = val_of(r["o"], env)
+                        v = None if v is None else not v
+                    if v is None:
+                        env.pop(st["p"][0], None)
+                    else:
+                        env[st["p"][0]] = v
+                if b in gb:
+                    reach_guard[0] = True
+                    return
+                if b in allocs:
+                    if not static_no:
+                        bad.append(trail)
+                    return
+                seen = seen | {b}
+                t = body.term(b)
+                if t["k"] == "switch" and t.get("ty") == "bool":
+                    o = mir.strip_all(pv.of_operand(t["o"]))
+                    edges = [(False, t["ts"][0][1]), (True, t["else"])]
+                    known = val_of(t["o"], env)
+                    for val, tgt in edges:
+                        if known is not None and known != val:
+                            continue
+                        if o[0] == "param" and o[1] in consts and consts[o[1]] != val:
+                            continue
+                        sn = static_no
+                        tr = trail
+                        if o[0] == "call":
+                            hf = prog.fns.get(mir.callee_of(body.term(o[3]))) if len(o) > 3 and body.term(o[3])["k"] == "call" else None
+                            if hf is not None and hf.id in static_fns:
+                                sn = static_no or (val is False)
+                            else:
+                                tr = trail + ["%s is %s" % (o[1].split("::")[-1], val)]
+                        elif o[0] != "param":
+                            tr = trail + ["%s is %s" % (mir.short_origin(o)[:40], val)]
+                        walk(tgt, seen, sn, tr, env)
+                    return
+                for x in body.succ(b):
+                    walk(x, seen, static_no, trail, env)
+            walk(0, frozenset(), False, [])
+            key = "%s:%s->%s(%s)" % (rule, c.name, g.name, ",".join("%d=%s" % kv for kv in sorted(consts.items())))
+            if not reach_guard[0]:
+                ctx.ok(rule, key, c.loc, "the guard is not in play for this kind of statement")
+                continue
+            ctx.decide(not bad, rule, key, g.loc,
+                       "every path to the allocation without the IsVariableDefined guard answers `not STATIC`",
+                       "%s reaches the allocation of a DIM variable without the allocate-once guard although the procedure "
+                       "may be STATIC (path: %s): that variable is allocated again - zeroed - on every call of a STATIC "
+                       "SUB / FUNCTION" % (g.name, "; ".join(bad[0]) if bad and bad[0] else "no test of STATIC on it"))
+    ctx.require(rule, 2)
+
+
 def run(ctx):
     common.install(ctx)
     r1_index_stable(ctx)
@@ -708,3 +838,4 @@ def run(ctx):
     from . import c05
     c05.r6_error_unwinding(ctx, "C03.R11")
     r12_generator_made_variables_live_with_the_call(ctx)
+    r13_static_dim_is_allocated_once(ctx)
